@@ -89,6 +89,27 @@ CHECKS = {
 
 NOT_YET = {}
 
+# coverage added after the first build (appended to the level text of the check)
+EXTRA = {
+    "C01": "The alphabet also constructs new graphs over existing values and nodes (ir.Graph(inputs, outputs, nodes=, initializers=) in every role combination, incl. objects owned elsewhere).",
+    "C06": "Rejected graph constructions over existing objects are part of the alphabet.",
+    "C02": "Every leaf tensor / type / attribute is additionally round-tripped inside every model context that can hold it (main and body initializer, Constant value, TENSORS attribute in a function; graph input / value-info / output / body output / function value-info; main, body and function node), and triples of deviations are enumerated in the thorough tier.",
+    "C03": "World states: every first step of the edit alphabet from all six seed worlds.",
+    "C05": "Seed families include a name-clash family (caller values named like callee-internal values and their suffixed forms), opset pairs through shared pass objects, 160 kB initializers differing at one position, and kept-Identity models with differing annotations.",
+    "C07": "A failing-save grid (model path unusable, unknown format, raising callback / lazy tensor incl. BaseException, existing shard file) checks that the caller's model holds the same tensor objects after the exception; alignments include non-powers of two.",
+    "C08": "The same worlds are also driven through external_data.unload_from_model and convert_tensors_to_external; one history uses a source location that only textually normalises to the destination.",
+    "C09": "Dedicated configurations make lock releases scheduling points too; the recording budget accounts outstanding reservations against the documented contract (regular reservations <= capacity, at most one oversized).",
+    "C10": "Locations include backslash forms and in-directory symlinks into the prefix sibling; two-tensor sequences re-use one base-directory spelling across a chdir and a re-pointed directory symlink.",
+    "C12": "Sort-edit-sort histories (new producer for a free value, replace_input_with, replace_all_uses_with between two sorts) are judged against a dependency relation read off the live IR.",
+    "C13": "Every functionalized pipeline over 11 modifying passes (Sequential / PassManager, every in-place/functional member mix, led by the checker) must leave the full snapshot of its input unchanged.",
+    "C14": "Compositions include functionalized members and three-member pipelines led by the validating pass; every composition is compared with member-by-member application.",
+    "C15": "One NameFixPass object is run, the model edited to clash again, and the same object run again.",
+    "C16": "Dims built from hand-written SymPy expressions over plain / integer / integer-positive symbols are evaluated against the same reference.",
+    "C17": "Oracles added: the returned IR is closed (no input produced by a node outside the model), results do not depend on earlier (also rejected) deserialisations, any file opened outside the interpreter/library trees counts as file access; mutants include checksum entries, external tensors in nested bodies and functions, names colliding with external initializers, and shadowing inside function bodies.",
+    "C18": "Capture-analysis sources include values defined in an intermediate body (node output, formal input, initializer) used one and two levels deeper; extraction sources include initializers that are also graph inputs.",
+    "C20": "An inspected run (a hook reading obj/display() for every entry, Journal.display() after every operation) must behave like the plain run and keep no object alive.",
+}
+
 ALL = [f"C{i:02d}" for i in range(1, 21)]
 
 
@@ -105,7 +126,7 @@ def main():
             "evidence_file": f"/verif/evidence/{pid}.json",
             "replay_cmd_template": f"./check {pid} --replay {{path}}",
             "engine": c["engine"],
-            "level_claimed": {"category": c["level"], "text": c["text"], "design_ref": c["design"]},
+            "level_claimed": {"category": c["level"], "text": c["text"] + (" " + EXTRA[pid] if pid in EXTRA else ""), "design_ref": c["design"]},
             "level_note": c["note"],
             "technique": c["technique"],
         })
